@@ -6,7 +6,12 @@ Implementation functions driven (real code from /repo/src):
   spatial.get_tile_array (2-D and with trailing dimensions), spatial.PixelToReferenceTransformer
   (.affine and __call__), spatial.map_pixel_into_coordinate_system,
   utils.compute_plane_position_tiled_full (incl. the TypeError / ValueError paths),
-  utils.compute_plane_position_slide_per_frame, utils.are_plane_positions_tiled_full
+  utils.compute_plane_position_slide_per_frame, utils.are_plane_positions_tiled_full;
+  extension 2: the same functions on the whole integer domain of the size arguments (sizes <= 0, negative tile
+  sizes), the generator consumed to the end with failing compute_tile_positions_per_frame, the single-tile helper
+  called over the whole tile_pixel_matrix enumeration and its REAL PlanePositionSequence objects fed to
+  are_plane_positions_tiled_full, compute_plane_position_slide_per_frame fed to are_plane_positions_tiled_full,
+  every tile of an R x C x S array, spatial.is_tiled_image
 Model: coq/theories/C12_Model.v; theorems: C12_Props.v.
 """
 import itertools
@@ -32,9 +37,12 @@ MODELLED = ('spatial.tile_pixel_matrix, get_tile_array (2-D and R x C x S), comp
             'LABELMAP channel); PixelToReferenceTransformer as the 4x4 affine matrix (proved equal to the affine '
             'formula); utils.compute_plane_position_tiled_full (ValueError / TypeError paths), '
             'compute_plane_position_slide_per_frame, are_plane_positions_tiled_full '
-            '(PlanePositionSequence construction is read back through its attributes, not modelled)')
+            '(PlanePositionSequence construction is read back through its attributes, not modelled); '
+            'compute_tile_positions_per_frame and get_tile_array on ALL integer sizes (TypeError on an empty grid, '
+            'negative numpy slice ends), error propagation into iter_tiled_full_frame_data, is_tiled_image')
 STRATA = ['grid', 'positions', 'iter', 'ppos', 'ppos_err', 'tiled_full', 'tile_array', 'tile_array_err',
-          'positions_chk', 'affine', 'ppos2', 'iter_ds', 'slide_pf', 'tile_array_nd', 'cut_all']
+          'positions_chk', 'affine', 'ppos2', 'iter_ds', 'slide_pf', 'tile_array_nd', 'cut_all',
+          'positions_dom', 'iter_ds_chk', 'helper_grid', 'pf_tiled_full', 'tile_array_py', 'is_tiled', 'cut_all_nd', 'tiled_full_dom']
 RULE = ('grid: exhaustive cube of (R,C,th,tw) up to a bound + random up to 24 (64 in thorough); '
         'positions/iter: random rational orientations (signed axis permutations, Pythagorean), dyadic '
         'spacings and origins; tiled_full: complete grids, permutations, holes, prefixes, duplicates; '
@@ -45,6 +53,15 @@ RULE = ('grid: exhaustive cube of (R,C,th,tw) up to a bound + random up to 24 (6
         'foreign SOP class, other organisation types, z origin, optical-path count differing from the sequence length; '
         'tile_array_nd: arrays with 1..3 trailing samples; cut_all: every tile of the grid of one matrix, from both '
         'enumerations, pasted back by the oracle. '
+        'positions_dom: matrix sizes -2..6 and tile sizes -3..4 (zero, negative, size-1 matrices with negative tiles) with '
+        'occasional length / spacing faults; iter_ds_chk: datasets whose Rows / Columns / matrix sizes / spacings make '
+        'compute_tile_positions_per_frame fail, with and without an empty channel x focal-plane loop; helper_grid: '
+        'compute_plane_position_tiled_full for every pair of tile_pixel_matrix (2-D and with a focal plane), the '
+        'PlanePositionSequence objects then given to are_plane_positions_tiled_full; pf_tiled_full: '
+        'compute_plane_position_slide_per_frame of datasets with 0, 1 and >= 2 channel x plane copies given to '
+        'are_plane_positions_tiled_full; tile_array_py: tile sizes -8..3 (numpy negative slice ends); is_tiled: all 8 '
+        'attribute combinations; tiled_full_dom: the full-tiling test with tile sizes -3..3 (0: ValueError; negative: '
+        'descending Python ranges) on grids, empty, single, negative and descending position lists; cut_all_nd: every tile of R x C x S arrays, pasted back plane by plane. '
         'non-trivial = more than one tile (or a rejected/negative answer); distinct by case hash')
 EXHAUSTIVE = {'quick': False, 'thorough': False}
 
@@ -156,6 +173,100 @@ def gen_cases(rng, tier):
         cases.append({'kind': 'tile_array_err' if bad else 'tile_array', 'M': M, 'R': R, 'C': C,
                       'ro': ro, 'co': co, 'th': th, 'tw': tw, 'pad': rng.random() < 0.7})
     cases += _gen_ext(rng, nrand)
+    cases += _gen_ext2(rng, nrand)
+    return cases
+
+
+def _gen_ext2(rng, nrand):
+    """cases of extension 2: whole integer domain, error propagation, helper over the enumeration,
+    per-frame data against the full-tiling test, R x C x S round trip"""
+    cases = []
+    for _ in range(max(70, nrand // 5)):                      # positions_dom
+        g = _geom(rng)
+        R, C = rng.choice([-2, -1, 0, 1, 1, 2, 3, 5, 6]), rng.choice([-2, 0, 1, 1, 2, 3, 4, 6])
+        th, tw = rng.choice([-3, -2, -1, 0, 1, 2, 3, 4]), rng.choice([-3, -1, 0, 1, 2, 2, 3, 4])
+        if rng.random() < 0.35:                               # mostly-valid: negative tiles need a size-1 matrix
+            if th < 0:
+                R = 1
+            if tw < 0:
+                C = 1
+        c = dict(g, kind='positions_dom', R=R, C=C, th=th, tw=tw, npos=3, nori=6, nsp=2)
+        f = rng.random()
+        if f < 0.08:
+            c[rng.choice(['npos', 'nori', 'nsp'])] += rng.choice([-1, 1])
+        elif f < 0.2:
+            c[rng.choice(['spr', 'spc'])] = str(F(rng.choice([0, -1]), 1))
+        cases.append(c)
+    for _ in range(max(70, nrand // 5)):                      # iter_ds_chk
+        R, C, th, tw = _sizes(rng, 5)
+        g = _geom(rng)
+        g['pos'] = g['pos'][:2]
+        sop = rng.choice(['wsi', 'wsi', 'seg', 'lmseg', 'other'])
+        c = dict(g, kind='iter_ds_chk', R=R, C=C, th=th, tw=tw, sop=sop,
+                 dim_org=rng.choice(['TILED_FULL'] * 8 + ['TILED_SPARSE', None]),
+                 nfp=rng.choice([None, 0, 1, 2]),
+                 segtype=rng.choice(['BINARY', 'LABELMAP']) if sop in ('seg', 'lmseg') else None,
+                 nseg=rng.randint(0, 2), nop=rng.choice([None, 0, 1, 2]), len_ops=rng.randint(1, 2),
+                 sbs=rng.choice([None, str(F(rng.randint(1, 20), rng.choice([1, 2, 4])))]),
+                 zorigin=rng.choice([None, str(F(rng.randint(-40, 40), rng.choice([1, 2, 4])))]))
+        for f in rng.choice([['th0'], ['tw0'], ['R0'], ['C0'], ['Rneg'], ['spr'], ['spc'], ['th0', 'spr'], ['R0', 'spc'],
+                             ['thneg'], ['twneg', 'C1'], ['thneg', 'R1'], []]):
+            if f in ('spr', 'spc'):
+                c[f] = str(F(rng.choice([0, -1]), 1))
+            else:
+                key, val = {'th0': ('th', 0), 'tw0': ('tw', 0), 'R0': ('R', 0), 'C0': ('C', 0), 'Rneg': ('R', -2),
+                            'thneg': ('th', -2), 'twneg': ('tw', -1), 'C1': ('C', 1), 'R1': ('R', 1)}[f]
+                c[key] = val
+        cases.append(c)
+    for _ in range(max(50, nrand // 6)):                      # helper_grid
+        R, C, th, tw = _sizes(rng, 7)
+        g = _geom(rng)
+        g['pos'] = g['pos'][:2]
+        sl = None if rng.random() < 0.5 else [rng.randint(1, 4), str(F(rng.randint(1, 20), rng.choice([1, 2, 4])))]
+        cases.append(dict(g, kind='helper_grid', R=R, C=C, th=th, tw=tw, slice=sl))
+    for _ in range(max(60, nrand // 5)):                      # pf_tiled_full
+        R, C, th, tw = _sizes(rng, 6)
+        g = _geom(rng)
+        g['pos'] = g['pos'][:2]
+        sop = rng.choice(['wsi', 'wsi', 'seg', 'lmseg', 'lmseg', 'other'])
+        cases.append(dict(g, kind='pf_tiled_full', R=R, C=C, th=th, tw=tw, sop=sop,
+                          dim_org=rng.choice(['TILED_FULL'] * 9 + ['TILED_SPARSE']),
+                          nfp=rng.choice([None, None, 1, 1, 0, 2]),
+                          segtype=rng.choice(['BINARY', 'LABELMAP', 'LABELMAP']) if sop in ('seg', 'lmseg') else None,
+                          nseg=rng.choice([0, 1, 1, 2]), nop=rng.choice([None, 0, 1, 1, 2]), len_ops=rng.choice([1, 1, 2]),
+                          sbs=None, zorigin=None))
+    for _ in range(max(70, nrand // 5)):                      # tile_array_py
+        R, C = rng.randint(1, 6), rng.randint(1, 6)
+        M = [[rng.randint(1, 9) for _ in range(C)] for _ in range(R)]
+        ro, co = rng.randint(1, R), rng.randint(1, C)
+        if rng.random() < 0.08:
+            ro, co = rng.choice([(0, 1), (R + 1, 1), (1, 0), (1, C + 1)])
+        cases.append({'kind': 'tile_array_py', 'M': M, 'R': R, 'C': C, 'ro': ro, 'co': co,
+                      'th': rng.choice([-8, -3, -2, -1, -1, 0, 1, 2, 3, -R, -R + 1]),
+                      'tw': rng.choice([-8, -3, -2, -1, -1, 0, 1, 2, 3, -C, -C + 1]), 'pad': rng.random() < 0.6})
+    for _ in range(max(60, nrand // 5)):                      # tiled_full_dom
+        th, tw = rng.choice([-2, -1, 0, 1, 2, 3, -1, 2]), rng.choice([-3, -1, 0, 1, 2, 2, 3])
+        mode = rng.choice(['grid', 'grid', 'empty', 'empty', 'one', 'neg', 'down'])
+        if mode == 'grid':
+            ps = [[1 + a * abs(th or 1), 1 + b * abs(tw or 2)] for a in range(rng.randint(1, 3)) for b in range(rng.randint(1, 3))]
+        elif mode == 'empty':
+            ps = []
+        elif mode == 'one':
+            ps = [[rng.choice([1, 1, 2]), rng.choice([1, 1, 3])]]
+        elif mode == 'neg':
+            ps = [[rng.randint(-4, 1), rng.randint(-4, 1)] for _ in range(rng.randint(1, 2))]
+        else:                                                 # what a negative step would enumerate
+            ps = [[1, 1], [1 + th, 1], [1, 1 + tw]][:rng.randint(1, 3)]
+        cases.append({'kind': 'tiled_full_dom', 'mode': mode, 'ps': ps, 'th': th, 'tw': tw})
+    for a in (False, True):                                   # is_tiled
+        for b in (False, True):
+            for d in (False, True):
+                cases.append({'kind': 'is_tiled', 'a': a, 'b': b, 'c': d, 'extra': rng.random() < 0.5})
+    for _ in range(max(40, nrand // 8)):                      # cut_all_nd
+        R, C, th, tw = _sizes(rng, 5)
+        S = rng.randint(1, 3)
+        M = [[[rng.randint(1, 9) for _ in range(S)] for _ in range(C)] for _ in range(R)]
+        cases.append({'kind': 'cut_all_nd', 'M': M, 'R': R, 'C': C, 'S': S, 'th': th, 'tw': tw, 'pad': rng.random() < 0.6})
     return cases
 
 
@@ -416,6 +527,72 @@ def run_impl(c):
         b = [[[(ci - 1) * c['tw'] + 1, (ri - 1) * c['th'] + 1], cut((ri - 1) * c['th'] + 1, (ci - 1) * c['tw'] + 1)]
              for ci, ri in spatial.tile_pixel_matrix(c['R'], c['C'], c['th'], c['tw'])]
         return [a, b]
+    if k == 'positions_dom':
+        pos = (_fl(c['pos']) + [0.0])[:c['npos']]
+        ori = (_fl(c['rc']) + _fl(c['cc']) + [0.0])[:c['nori']]
+        sp = ([float(F(c['spr'])), float(F(c['spc']))] + [1.0])[:c['nsp']]
+        return catch(lambda: [[o, p] for o, p in spatial.compute_tile_positions_per_frame(
+            c['th'], c['tw'], c['R'], c['C'], pos, ori, sp)])
+    if k == 'iter_ds_chk':
+        import warnings
+        with warnings.catch_warnings():
+            warnings.simplefilter('ignore')
+            ds = _dataset2(c)
+            return catch(lambda: [[ch, fp, col, row, [x, y, z]] for ch, fp, col, row, x, y, z in
+                                  spatial.iter_tiled_full_frame_data(ds)])
+    if k == 'helper_grid':
+        kw = {}
+        if c['slice'] is not None:
+            kw = dict(slice_index=c['slice'][0], spacing_between_slices=float(F(c['slice'][1])))
+        pps, outl = [], []
+        for ci, ri in spatial.tile_pixel_matrix(c['R'], c['C'], c['th'], c['tw']):
+            def one(ri=ri, ci=ci):
+                pp = utils.compute_plane_position_tiled_full(
+                    row_index=ri, column_index=ci,
+                    x_offset=float(F(c['pos'][0])), y_offset=float(F(c['pos'][1])),
+                    rows=c['th'], columns=c['tw'], image_orientation=_fl(c['rc']) + _fl(c['cc']),
+                    pixel_spacing=(float(F(c['spr'])), float(F(c['spc']))), **kw)
+                pps.append(pp)
+                it = pp[0]
+                return [[int(it.ColumnPositionInTotalImagePixelMatrix), int(it.RowPositionInTotalImagePixelMatrix)],
+                        [float(it.XOffsetInSlideCoordinateSystem), float(it.YOffsetInSlideCoordinateSystem),
+                         float(it.ZOffsetInSlideCoordinateSystem)]]
+            outl.append(catch(one))
+        return [outl, bool(utils.are_plane_positions_tiled_full(pps, c['th'], c['tw']))]
+    if k == 'pf_tiled_full':
+        ds = _dataset2(c)
+        return catch(lambda: bool(utils.are_plane_positions_tiled_full(
+            utils.compute_plane_position_slide_per_frame(ds), ds.Rows, ds.Columns)))
+    if k == 'tile_array_py':
+        M = np.array(c['M'], dtype=np.int64).reshape(c['R'], c['C'])
+        return catch(lambda: spatial.get_tile_array(M, c['ro'], c['co'], c['th'], c['tw'], pad=c['pad']).tolist())
+    if k == 'tiled_full_dom':
+        from pydicom import Dataset
+        pps = []
+        for r, col in c['ps']:
+            d = Dataset()
+            d.RowPositionInTotalImagePixelMatrix = r
+            d.ColumnPositionInTotalImagePixelMatrix = col
+            pps.append([d])
+        return catch(lambda: bool(utils.are_plane_positions_tiled_full(pps, c['th'], c['tw'])))
+    if k == 'is_tiled':
+        from pydicom import Dataset
+        ds = Dataset()
+        if c['a']:
+            ds.TotalPixelMatrixRows = 4
+        if c['b']:
+            ds.TotalPixelMatrixColumns = 4
+        if c['c']:
+            ds.NumberOfFrames = 1
+        if c['extra']:
+            ds.Rows, ds.Columns = 2, 2
+        return bool(spatial.is_tiled_image(ds))
+    if k == 'cut_all_nd':
+        M = np.array(c['M'], dtype=np.int64).reshape(c['R'], c['C'], c['S'])
+        offs = [o for o, _ in spatial.compute_tile_positions_per_frame(
+            c['th'], c['tw'], c['R'], c['C'], (0.0, 0.0, 0.0), (1, 0, 0, 0, 1, 0), (1.0, 1.0))]
+        return [[[co, ro], catch(lambda ro=ro, co=co: spatial.get_tile_array(
+            M, ro, co, c['th'], c['tw'], pad=c['pad']).tolist())] for co, ro in offs]
     raise ValueError(k)
 
 
@@ -464,7 +641,7 @@ def coq_term(c):
         return (f"(run_ppos2 {zlit(c['ri'])} {zlit(c['ci'])} {qlit(F(c['pos'][0]))} {qlit(F(c['pos'][1]))} "
                 f"{zlit(c['th'])} {zlit(c['tw'])} {_v3(c['rc'])} {_v3(c['cc'])} "
                 f"{qlit(F(c['spr']))} {qlit(F(c['spc']))} {sidx} {sbs})")
-    if k in ('iter_ds', 'slide_pf'):
+    if k in ('iter_ds', 'slide_pf', 'iter_ds_chk', 'pf_tiled_full'):
         def oz(v):
             return 'None' if v is None else f'(Some {zlit(v)})'
 
@@ -476,7 +653,9 @@ def coq_term(c):
              f"{oz(c['nop'])} {zlit(c['len_ops'])} {oq(c['sbs'])} {oq(c['zorigin'])} {s} "
              f"{qlit(F(c['pos'][0]))} {qlit(F(c['pos'][1]))} {_v3(c['rc'])} {_v3(c['cc'])} "
              f"{qlit(F(c['spr']))} {qlit(F(c['spc']))})")
-        return f"({'run_iter_ds' if k == 'iter_ds' else 'run_slide_per_frame'} {d})"
+        fn = {'iter_ds': 'run_iter_ds', 'slide_pf': 'run_slide_per_frame', 'iter_ds_chk': 'run_iter_ds_chk',
+              'pf_tiled_full': 'run_pf_tiled_full'}[k]
+        return f"({fn} {d})"
     if k == 'tile_array_nd':
         M = '[' + '; '.join(zll(row) for row in c['M']) + ']'
         return (f"(run_tile_array_nd {zlit(c['S'])} {M} {zlit(c['R'])} {zlit(c['C'])} {zlit(c['ro'])} {zlit(c['co'])} "
@@ -484,6 +663,24 @@ def coq_term(c):
     if k == 'cut_all':
         t = f"(run_cut_all {zll(c['M'])} {s} {'true' if c['pad'] else 'false'})"
         return f'(VL [{t}; {t}])'
+    if k == 'positions_dom':
+        return (f"(run_positions_dom {zlit(c['npos'])} {zlit(c['nori'])} {zlit(c['nsp'])} {s} {_v3(c['pos'])} "
+                f"{_v3(c['rc'])} {_v3(c['cc'])} {qlit(F(c['spr']))} {qlit(F(c['spc']))})")
+    if k == 'helper_grid':
+        sl = 'None' if c['slice'] is None else f"(Some ({zlit(c['slice'][0])}, {qlit(F(c['slice'][1]))}))"
+        return (f"(run_helper_positions {s} {qlit(F(c['pos'][0]))} {qlit(F(c['pos'][1]))} {_v3(c['rc'])} {_v3(c['cc'])} "
+                f"{qlit(F(c['spr']))} {qlit(F(c['spc']))} {sl})")
+    if k == 'tile_array_py':
+        return (f"(run_tile_array_py {zll(c['M'])} {zlit(c['R'])} {zlit(c['C'])} {zlit(c['ro'])} {zlit(c['co'])} "
+                f"{zlit(c['th'])} {zlit(c['tw'])} {'true' if c['pad'] else 'false'})")
+    if k == 'tiled_full_dom':
+        ps = '[' + '; '.join(f'({zlit(r)}, {zlit(cc)})' for r, cc in c['ps']) + ']'
+        return f"(run_tiled_full_dom {ps} {zlit(c['th'])} {zlit(c['tw'])})"
+    if k == 'is_tiled':
+        return '(run_is_tiled %s %s %s)' % tuple('true' if c[x] else 'false' for x in 'abc')
+    if k == 'cut_all_nd':
+        M = '[' + '; '.join(zll(row) for row in c['M']) + ']'
+        return f"(run_cut_all_nd {zlit(c['S'])} {M} {s} {'true' if c['pad'] else 'false'})"
     raise ValueError(k)
 
 
@@ -538,6 +735,9 @@ def oracle(c, out):
             ref = _ref_pos(c, co - 1, ro - 1)
             if not all(_close(a, b) for a, b in zip(p, ref)):
                 return f'position of tile at offset {(co, ro)} is {p}, transform gives {ref}'
+        # distinct tiles, distinct positions (C12_positions_identify_tiles)
+        if len({tuple(round(x, 7) for x in p) for _, p in out}) != len(out):
+            return 'two different tiles are reported at the same physical position'
         return None
     if k == 'iter':
         chans = [None] if c['seg'] == 'LABELMAP' else list(range(1, c['nch'] + 1))
@@ -715,7 +915,171 @@ def oracle(c, out):
             if any(h != 1 for row in hits for h in row):
                 return f'{name}: some pixel is not written exactly once'
         return None
+    if k == 'positions_dom':
+        return _oracle_positions_dom(c, out)
+    if k == 'iter_ds_chk':
+        if c['sop'] == 'other' or c['dim_org'] != 'TILED_FULL':
+            return None if isinstance(out, Err) and str(out.kind) == 'ValueError' else \
+                'dataset that is not a TILED_FULL slide image / segmentation accepted'
+        if c['sop'] in ('seg', 'lmseg'):
+            chans = [None] if c['segtype'] == 'LABELMAP' else list(range(1, c['nseg'] + 1))
+        else:
+            chans = list(range(1, (c['nop'] if c['nop'] is not None else c['len_ops']) + 1))
+        nfp = 1 if c['nfp'] is None else c['nfp']
+        if not chans or nfp <= 0:
+            return None if out == [] else f'no channel or focal plane, yet {out} produced'
+        want = _dom_error(dict(c, npos=3, nori=6, nsp=2))
+        if want is not None:
+            if not isinstance(out, Err):
+                return f'sizes / spacings for which the tiling is undefined accepted (expected {want})'
+            return None if str(out.kind) == want else f'{out} raised, expected {want}'
+        if isinstance(out, Err):
+            return f'valid dataset refused: {out}'
+        sbs = 1.0 if c['sbs'] is None else float(F(c['sbs']))
+        z0 = 0.0 if c['zorigin'] is None else float(F(c['zorigin']))
+        grid = _dom_grid(c)
+        if len(out) != len(chans) * nfp * len(grid):
+            return f'{len(out)} frames, expected {len(chans)}x{nfp}x{len(grid)}'
+        i = 0
+        for ch in chans:
+            for fp in range(1, nfp + 1):
+                block = out[i:i + len(grid)]
+                i += len(grid)
+                if any(b[0] != ch or b[1] != fp for b in block):
+                    return f'channel/focal plane order wrong in block {ch},{fp}'
+                if [[b[2], b[3]] for b in block] != grid:
+                    return f'offsets of block {ch},{fp} are not the row-major grid {grid[:6]}'
+                for b in block:
+                    ref = _ref_pos(c, b[2] - 1, b[3] - 1, z=z0 + (fp - 1) * sbs)
+                    if not all(_close(x, y) for x, y in zip(b[4], ref)):
+                        return f'position {b[4]} vs transform {ref}'
+        return None
+    if k == 'helper_grid':
+        outl, accepted = out
+        for t in outl:
+            if isinstance(t, Err):
+                return f'an index pair enumerated by tile_pixel_matrix is refused by the single-tile helper: {t}'
+        m = _check_grid_list([t[0] for t in outl], c['R'], c['C'], c['th'], c['tw'])
+        if m:
+            return 'single-tile helper over tile_pixel_matrix: ' + m
+        z = 0.0 if c['slice'] is None else (c['slice'][0] - 1) * float(F(c['slice'][1]))
+        for (co, ro), p in outl:
+            ref = _ref_pos(c, co - 1, ro - 1, z=z)
+            if not all(_close(a, b) for a, b in zip(p, ref)):
+                return f'position {p} of tile {(co, ro)} vs transform {ref}'
+        if accepted is not True:
+            return 'the plane positions of the complete enumeration are refused by are_plane_positions_tiled_full'
+        return None
+    if k == 'pf_tiled_full':
+        if c['sop'] == 'other' or c['dim_org'] != 'TILED_FULL':
+            return None if isinstance(out, Err) and str(out.kind) == 'ValueError' else \
+                'dataset that is not a TILED_FULL slide image / segmentation accepted'
+        if isinstance(out, Err):
+            return f'valid dataset refused: {out}'
+        if c['sop'] in ('seg', 'lmseg'):
+            nch = 1 if c['segtype'] == 'LABELMAP' else c['nseg']
+        else:
+            nch = c['nop'] if c['nop'] is not None else c['len_ops']
+        nfp = 1 if c['nfp'] is None else c['nfp']
+        want = max(nch, 0) * max(nfp, 0) <= 1
+        return None if out == want else (f'{nch} channel(s) x {nfp} focal plane(s) of the grid: '
+                                         f'are_plane_positions_tiled_full={out}, expected {want}')
+    if k == 'tile_array_py':
+        R, C, th, tw, ro, co = c['R'], c['C'], c['th'], c['tw'], c['ro'], c['co']
+        if ro < 1 or ro > R or co < 1 or co > C:
+            return None if isinstance(out, Err) and str(out.kind) == 'ValueError' else 'out-of-matrix offset accepted'
+        if isinstance(out, Err):
+            return f'valid offset refused: {out}'
+        if th >= 1 and tw >= 1:
+            return oracle(dict(c, kind='tile_array'), out)
+        # a non-positive size: plain Python list slicing is the reference (no padding can be due on that axis)
+        re_, ce = min(ro - 1 + th, R), min(co - 1 + tw, C)
+        want = [row[co - 1:ce] for row in c['M'][ro - 1:re_]]
+        if c['pad']:
+            want = [row + [0] * max(co - 1 + tw - C, 0) for row in want]
+            want += [[0] * (len(want[0]) if want else 0) for _ in range(max(ro - 1 + th - R, 0))]
+        if [list(r) for r in out] != want:
+            return f'tile {out}, Python slicing gives {want}'
+        return None
+    if k == 'tiled_full_dom':
+        ps, th, tw = c['ps'], c['th'], c['tw']
+        if th == 0 or tw == 0:
+            return None if isinstance(out, Err) and str(out.kind) == 'ValueError' else \
+                f'tile size 0 accepted by the full-tiling test: {out}'
+        if isinstance(out, Err):
+            return f'non-zero tile sizes refused: {out}'
+        if th < 0 or tw < 0:
+            # no tiling has a negative tile size: nothing but (vacuously, one axis) the empty list may pass
+            want = (not ps) and not (th < 0 and tw < 0)
+        else:
+            mr, mc = max([-1] + [p[0] for p in ps]), max([-1] + [p[1] for p in ps])
+            want = ps == [[r, cc] for r in range(1, mr + 1, th) for cc in range(1, mc + 1, tw)]
+        return None if out == want else f'are_plane_positions_tiled_full={out}, expected {want} ({c["mode"]})'
+    if k == 'is_tiled':
+        want = c['a'] and c['b'] and c['c']
+        return None if out == want else f'is_tiled_image={out} with attributes present {(c["a"], c["b"], c["c"])}'
+    if k == 'cut_all_nd':
+        R, C, S, th, tw = c['R'], c['C'], c['S'], c['th'], c['tw']
+        m = _check_grid_list([o for o, _ in out], R, C, th, tw)
+        if m:
+            return m
+        buf = [[None] * C for _ in range(R)]
+        for (co, ro), T in out:
+            if isinstance(T, Err):
+                return f'the tile at grid offset {(co, ro)} cannot be cut: {T}'
+            nr = th if c['pad'] else min(th, R - ro + 1)
+            nc = tw if c['pad'] else min(tw, C - co + 1)
+            if len(T) != nr or any(len(r) != nc for r in T) or any(len(p) != S for r in T for p in r):
+                return f'tile at {(co, ro)} is not {nr}x{nc}x{S}'
+            for a in range(nr):
+                for b in range(nc):
+                    r, cc = ro - 1 + a, co - 1 + b
+                    if r < R and cc < C:
+                        if buf[r][cc] is not None:
+                            return f'pixel {(r, cc)} written twice'
+                        buf[r][cc] = T[a][b]
+                    elif any(T[a][b]):
+                        return f'out-of-matrix part of tile {(co, ro)} is not zero'
+        return None if buf == c['M'] else 'pasting the tiles back does not reproduce the array'
     return f'unknown kind {k}'
+
+
+def _dom_error(c):
+    """exception class compute_tile_positions_per_frame must raise on these arguments (None: it must succeed)"""
+    if c['npos'] != 3 or c['nori'] != 6 or c['nsp'] != 2:
+        return 'ValueError'
+    if c['th'] == 0 or c['tw'] == 0:
+        return 'ZeroDivisionError'
+    if F(c['spr']) <= 0 or F(c['spc']) <= 0:
+        return 'ValueError'
+    if (c['R'] - 1) // c['th'] + 1 <= 0 or (c['C'] - 1) // c['tw'] + 1 <= 0:
+        return 'TypeError'         # an empty grid: there is no tiling to describe
+    return None
+
+
+def _dom_grid(c):
+    nr, nc = (c['R'] - 1) // c['th'] + 1, (c['C'] - 1) // c['tw'] + 1
+    return [[1 + b * c['tw'], 1 + a * c['th']] for a in range(nr) for b in range(nc)]
+
+
+def _oracle_positions_dom(c, out):
+    want = _dom_error(c)
+    if want is not None:
+        if not isinstance(out, Err):
+            return f'arguments for which the tiling is undefined accepted (expected {want})'
+        return None if str(out.kind) == want else f'{out} raised, expected {want}'
+    if isinstance(out, Err):
+        return f'valid arguments refused: {out}'
+    if min(c['R'], c['C'], c['th'], c['tw']) >= 1:
+        return oracle(dict(c, kind='positions'), out)
+    grid = _dom_grid(c)
+    if [list(o) for o, _ in out] != grid:
+        return f'offsets {[o for o, _ in out][:6]} are not the grid {grid[:6]}'
+    for (co, ro), p in out:
+        ref = _ref_pos(c, co - 1, ro - 1)
+        if not all(_close(a, b) for a, b in zip(p, ref)):
+            return f'position of tile at offset {(co, ro)} is {p}, transform gives {ref}'
+    return None
 
 
 def nontrivial(c, out):
@@ -726,8 +1090,10 @@ def nontrivial(c, out):
         return len(out) > 1
     if k == 'tiled_full':
         return len(c['ps']) > 1
-    if k in ('tile_array', 'tile_array_nd', 'cut_all'):
+    if k in ('tile_array', 'tile_array_nd', 'cut_all', 'cut_all_nd', 'tile_array_py'):
         return c['R'] * c['C'] > 1
+    if k == 'helper_grid':
+        return len(out[0]) > 1
     if k in ('iter_ds', 'slide_pf'):
         return isinstance(out, Err) or len(out) > 1
     return True
@@ -735,7 +1101,7 @@ def nontrivial(c, out):
 
 def shrink(c):
     for key in ('R', 'C', 'th', 'tw', 'nch', 'nfp', 'ri', 'ci'):
-        if key in c and isinstance(c[key], int) and c[key] > 1 and c['kind'] not in ('tile_array', 'tile_array_err', 'tiled_full', 'tile_array_nd', 'cut_all'):
+        if key in c and isinstance(c[key], int) and c[key] > 1 and c['kind'] not in ('tile_array', 'tile_array_err', 'tiled_full', 'tile_array_nd', 'cut_all', 'tile_array_py', 'cut_all_nd'):
             yield dict(c, **{key: c[key] - 1})
             yield dict(c, **{key: 1})
     if c['kind'] == 'tiled_full' and len(c['ps']) > 1:
